@@ -277,35 +277,46 @@ def run_S7(cx, job):
         k = tokens.count('L')
         if k > kmax:
             continue
-        leafs = leaf_texts[:k]
-        text = lang.to_text(tokens, leafs)
-        ast = lang.parse(lang.lex(text))
-        cx.acc.case('S7', k >= 2)
-        try:
-            cx.enf.set_rules(cx.policy.Rules.from_dict({'p': text}),
-                             use_conf=False)
-        except Exception as e:
-            cx.acc.violation('S7|load-raises', 'loading %r raised %r' %
-                             (text, e), {'rule': text}, 'loads', repr(e),
-                             'S7')
-            continue
-        for mask in range(1 << k):
-            on = [leafs[i] for i in range(k) if mask >> i & 1]
-            target, creds = world_of(on)
-            exp = lang.evaluate(ast, lambda leaf: leaf in on)
-            cx.acc.ev()
-            got = world.decide(cx.enf, 'p', target, creds)
-            if got != ('ok', exp):
-                cx.acc.violation(
-                    'S7|family%d|%s' % (job['family'], 'allows' if
-                                        got == ('ok', True) else 'denies'
-                                        if got[0] == 'ok' else got[1]),
-                    '%r with exactly the leaves %r true decides %r, the '
-                    'documented language says %r' % (text, on, got, exp),
-                    {'rule': text, 'true_leaves': on, 'target': target,
-                     'creds': creds}, exp, got, 'S7')
-            cx.acc.outcome('S7-%s' % exp)
+        # every injective placement of family members for k <= 2 (so that
+        # each look-alike also stands alone and in both orders within one
+        # process), the first k members otherwise
+        placements = list(itertools.permutations(leaf_texts, k)) \
+            if k <= (2 if job['tier'] == 'quick' else 3) \
+            else [tuple(leaf_texts[:k])]
+        for leafs in placements:
+            _s7_case(cx, job, tokens, list(leafs), world_of)
     cx.acc.sample('S7', {'leaves': leaf_texts})
+
+
+def _s7_case(cx, job, tokens, leafs, world_of):
+    k = len(leafs)
+    text = lang.to_text(tokens, leafs)
+    ast = lang.parse(lang.lex(text))
+    cx.acc.case('S7', k >= 2)
+    try:
+        cx.enf.set_rules(cx.policy.Rules.from_dict({'p': text}),
+                         use_conf=False)
+    except Exception as e:
+        cx.acc.violation('S7|load-raises', 'loading %r raised %r' %
+                         (text, e), {'rule': text}, 'loads', repr(e),
+                         'S7')
+        return
+    for mask in range(1 << k):
+        on = [leafs[i] for i in range(k) if mask >> i & 1]
+        target, creds = world_of(on)
+        exp = lang.evaluate(ast, lambda leaf: leaf in on)
+        cx.acc.ev()
+        got = world.decide(cx.enf, 'p', target, creds)
+        if got != ('ok', exp):
+            cx.acc.violation(
+                'S7|family%d|%s' % (job['family'], 'allows' if
+                                    got == ('ok', True) else 'denies'
+                                    if got[0] == 'ok' else got[1]),
+                '%r with exactly the leaves %r true decides %r, the '
+                'documented language says %r' % (text, on, got, exp),
+                {'rule': text, 'true_leaves': on, 'target': target,
+                 'creds': creds}, exp, got, 'S7')
+        cx.acc.outcome('S7-%s' % exp)
 
 
 LABELS = ('@', '!', 'role:A', 'role:B')
